@@ -337,3 +337,23 @@ prop("C20",
      level_note=_SESS_NOTE, trusted_base=_SESS_TB,
      assumptions=["Stop counts as hung after 8 s"],
 )
+
+prop("C09",
+     coq=["gen/Extracted.v", "model/Trie.v", "model/Match.v", "model/LFProto.v", "proofs/LFProofs.v", "chk/C01chk.v", "chk/C09chk.v", "props/C09.v", "refute/C09.v"],
+     n={"quick": 64, "thorough": 600, "search": 200},
+     shrink_fields=["rounds"], shrink_min=1,
+     rule="5/8 'rounds': 30-70 (thorough 100-300) rounds on the real memlockfree provider; in a round 2-6 operations (Subscribe / UnSubscribe / Retain on a pool of shared and nested filters, every key touched at most once per round) "
+          "are issued at the same moment from goroutines of their own and served by the provider's worker goroutines, 0-2 publishes are issued during the round; at quiescence 1-3 probe publishes and sometimes Retained(filter) are compared "
+          "with the sequential model applied in any order (distinct keys commute), the concurrent publishes with a lower (untouched subscriptions) and an upper bound; rounds that never complete within 10 s are a deadlock. Round templates aim at "
+          "the racy spots: everybody leaves one filter at once, the last subscriber leaves while another arrives at the same / a nested filter. 3/8 'gated': the three schedules of refute/C09.v forced on the provider through the subscriber's "
+          "Hash() and the OnCleanUnsubscribe callback. non-trivial = a round with more than one operation or a gated schedule; distinct by case JSON.",
+     level_text="Theorems (coq/props/C09.v): the translator reads topics/memlockfree/node.go on every run and reports per structure-changing method whether it takes the structure mutex first (obligation C09_writers_locked over gen/Extracted.v); "
+                "for the protocol machine model/LFProto.v (one atomic access per step: counters, maps, remove flag, WaitGroup, callback; arbitrary scheduler) started in that mode: in EVERY reachable configuration at most one operation is in progress "
+                "and while the mutex is held a step of any other thread changes nothing - every execution is a sequential composition of whole operations; whole operations on pairwise distinct keys commute on the abstract subscription map (any permutation). "
+                "refute/C09.v: without the mutex three schedules leave the index in a state no sequential order produces (acknowledged subscription in a detached leaf; double clean-up prunes a sibling; retry from a pruned parent) - all three reproduced on "
+                "the implementation before the repair. Partial: linearizability of the lock-free SEARCH beside one writer is not proved (bounded from below and above by the check); sequential correctness of operations and search is C01/C07.",
+     level_note="Trusted: Coq kernel + vm_compute; tools/goextract (lock-discipline reader: first statements of the four writers); the hand-written protocol machine (its three refuting schedules and their locked counterparts are replayed on the implementation); "
+                "Go's sync.Mutex / sync.Map / atomic semantics; the Go scheduler for the concurrent rounds (a sample of interleavings, not an enumeration).",
+     trusted_base=["tools/goextract: lock discipline of subscriptionInsert / subscriptionRemove / retainInsert / retainRemove", "Go sync.Mutex, sync.Map and sync/atomic semantics", "Go scheduler (concurrent rounds sample interleavings)"],
+     assumptions=["one atomic access of the Go code = one step of LFProto", "searches are readers: they never unlink (node.getRetained clears an expired message only)"],
+)
